@@ -66,6 +66,22 @@ def directed_plans(tier):
                         'ch_desc': chd, 'time_desc': {}, 'descriptors': {'subj': 's1', 'sess': 1}}
                 for op in ('time_as_observations', 'time_as_channels', 'split_time', 'bin_time', 'split_obs', 'sort_by'):
                     plans.append({'family': {'roots': [root]}, 'ops': [{**base, 'op': op}, {**base, 'op': 'sort_by', 't': -1}]})
+    # exhaustive short sequences: every ordered pair (thorough: triple) of operations on a small temporal and a small flat root
+    names = [n for n, _ in WEIGHTS]
+    troot = {'temporal': True, 'ou': [5, 8, 2, 9], 'cu': [3, 9], 'tu': [7, 2, 4],
+             'obs_desc': {'cond': {'values': ['b', 'a', 'b', 'a'], 'container': 'list'}, 'run': {'values': [2, 1, 1, 2], 'container': 'array'}},
+             'ch_desc': {'roi': {'values': [1, 2], 'container': 'list'}, 'name': {'values': ['ch3', 'ch9'], 'container': 'array'}},
+             'time_desc': {}, 'descriptors': {'subj': 's1', 'sess': 1}}
+    froot = {**troot, 'temporal': False, 'tu': [], 'ou': [15, 18, 12, 19]}
+    for a in names:
+        for b in names:
+            if tier == 'thorough':
+                for c in names:
+                    plans.append({'family': {'roots': [troot, froot]},
+                                  'ops': [{**base, 'op': a, 'flag': True}, {**base, 'op': b, 't': -1, 'a': [1, 1, 0, 3, 0, 5]}, {**base, 'op': c, 't': -1}]})
+            else:
+                plans.append({'family': {'roots': [troot, froot]},
+                              'ops': [{**base, 'op': a, 'flag': True}, {**base, 'op': b, 't': -1, 'a': [1, 1, 0, 3, 0, 5]}]})
     return plans
 
 
